@@ -4,7 +4,7 @@ A model is `fn(interp, fn_ref, args, state, site, frame) -> [(ret, state)] | Non
 applicable, fall through to stepping into the body / the opaque default).
 """
 import re
-from .absint import Const, Top, Sym, Adt, Ref, FnV, UNIT, Infeasible, adt_base_name, TyRef, ty_s
+from .absint import Budget, Const, Top, Sym, Adt, Ref, FnV, UNIT, Infeasible, adt_base_name, TyRef, ty_s
 
 OPTION = "std::option::Option"
 RESULT = "std::result::Result"
@@ -96,7 +96,13 @@ def opt_cases(interp, v, st, label):
 
 
 def res_cases(interp, v, st, label):
-    inner = interp.concretize(v, st)
+    """case split of a Result value, writing the refinement back when v is behind a Ref (as opt_cases does)"""
+    target = None
+    if isinstance(v, Ref):
+        target = v
+        inner = deref(interp, v, st)
+    else:
+        inner = interp.concretize(v, st)
     if isinstance(inner, Adt):
         return [(inner, st)]
     lab = inner.label if isinstance(inner, Top) else label
@@ -110,6 +116,10 @@ def res_cases(interp, v, st, label):
         pty = inner.ty.arg(vix) if isinstance(inner, Top) and isinstance(inner.ty, TyRef) and adt_base_name(inner.ty.s) == RESULT else None
         val = ok(_fresh(interp, st2, interp.symbolic(pty, "%s.ok" % lab))) if vix == 0 else err(interp.symbolic(pty, "%s.err" % lab))
         st2.choose("variant(%s)" % lab, vname)
+        if target is not None:
+            base = st2.heap.get(target.addr)
+            if base is not None:
+                st2.heap[target.addr] = interp.set_at(base, target.path, val)
         out.append((val, st2))
     return out
 
@@ -227,6 +237,90 @@ def m_opt_map(interp, fn, args, st, site, frame):
     return out
 
 
+
+def _call_fnlike(interp, f, argv, st, frame, site, what):
+    """call a closure value or a function item passed by value; None when it cannot be resolved"""
+    if not (isinstance(f, Adt) and f.name.startswith("closure:")):
+        return None
+    body = interp.prog.bodies.get(f.name[len("closure:"):])
+    if body is None:
+        return None
+    if interp.step_only is not None and not any(r.search(body.path) or r.search(body.key) for r in interp.step_only) \
+            and not interp.is_new_helper(body):
+        return None
+    try:
+        return interp.call_closure(f, argv, st, frame)
+    except Budget:
+        return None
+
+
+def m_opt_unwrap_or(interp, fn, args, st, site, frame):
+    out = []
+    for (v, st2) in opt_cases(interp, args[0], st, "opt@" + site):
+        out.append((args[1] if v.variant == 0 else v.fields[0], st2))
+    return out
+
+
+def m_opt_unwrap_or_else(interp, fn, args, st, site, frame):
+    out = []
+    for (v, st2) in opt_cases(interp, args[0], st, "opt@" + site):
+        if v.variant == 1:
+            out.append((v.fields[0], st2))
+        else:
+            r = _call_fnlike(interp, args[1], [], st2, frame, site, "unwrap_or_else")
+            out.extend(r if r is not None else [(Top("unwrap_or_else@" + site), st2)])
+    return out
+
+
+def m_opt_map_or(interp, fn, args, st, site, frame):
+    out = []
+    for (v, st2) in opt_cases(interp, args[0], st, "opt@" + site):
+        if v.variant == 0:
+            out.append((args[1], st2))
+        else:
+            r = _call_fnlike(interp, args[2], [v.fields[0]], st2, frame, site, "map_or")
+            out.extend(r if r is not None else [(Top("map_or@" + site), st2)])
+    return out
+
+
+def m_opt_and_then(interp, fn, args, st, site, frame):
+    out = []
+    for (v, st2) in opt_cases(interp, args[0], st, "opt@" + site):
+        if v.variant == 0:
+            out.append((NONE, st2))
+        else:
+            r = _call_fnlike(interp, args[1], [v.fields[0]], st2, frame, site, "and_then")
+            out.extend(r if r is not None else [(Top("and_then@" + site), st2)])
+    return out
+
+
+def m_opt_filter(interp, fn, args, st, site, frame):
+    out = []
+    for (v, st2) in opt_cases(interp, args[0], st, "opt@" + site):
+        if v.variant == 0:
+            out.append((NONE, st2))
+            continue
+        payload = v.fields[0]
+        st2.counter += 1
+        cell = ("h", "filter", site, st2.counter)
+        st2.heap[cell] = payload
+        r = _call_fnlike(interp, args[1], [Ref(cell, (), False)], st2, frame, site, "filter")
+        if r is None:
+            return None
+        for (b, st3) in r:
+            b = interp.concretize(b, st3)
+            if isinstance(b, Const):
+                out.append((v if b.v else NONE, st3))
+            elif isinstance(b, Sym):
+                for d in (0, 1):
+                    st4 = st3.fork()
+                    st4.bind[b.name] = d
+                    st4.choose(b.name, d)
+                    out.append((v if d else NONE, st4))
+            else:
+                return None
+    return out
+
 def m_bool_then_some(interp, fn, args, st, site, frame):
     b = interp.concretize(args[0], st)
     out = []
@@ -333,9 +427,7 @@ def m_res_ok(interp, fn, args, st, site, frame):
 def m_res_is_ok(interp, fn, args, st, site, frame):
     want = 0 if fn["path"].endswith("is_ok") else 1
     out = []
-    a = args[0]
-    inner = deref(interp, a, st)
-    for (v, st2) in res_cases(interp, inner, st, "res@" + site):
+    for (v, st2) in res_cases(interp, args[0], st, "res@" + site):
         out.append((Const(1 if v.variant == want else 0, "bool"), st2))
     return out
 
@@ -432,6 +524,42 @@ def m_iter_skip(interp, fn, args, st, site, frame):
     return None
 
 
+def m_array_into_iter(interp, fn, args, st, site, frame):
+    """[a, b, c].into_iter(): a by-value iterator over the elements of an array literal"""
+    v = interp.concretize(args[0], st) if args else None
+    if isinstance(v, Adt) and v.name == "array" and len(v.fields) <= 64:
+        return [(Adt("it:array", 0, (v, Const(0, "usize"))), st)]
+    return None
+
+
+def m_iter_flatten(interp, fn, args, st, site, frame):
+    if args and isinstance(args[0], Adt) and args[0].name.startswith("it:"):
+        return [(Adt("it:flatten", 0, (args[0],)), st)]
+    return None
+
+
+def m_into_iter_identity(interp, fn, args, st, site, frame):
+    if args and isinstance(args[0], Adt) and args[0].name.startswith("it:"):
+        return [(args[0], st)]
+    return None
+
+
+def _flatten_next(interp, it, st, site, depth=0):
+    """next() of Flatten over an iterator of Options: [(item or None, iterator, state)], splitting on each element"""
+    inner = it.fields[0]
+    item, inner2 = _it_next(inner)
+    it2 = Adt("it:flatten", 0, (inner2,))
+    if item is None:
+        return [(None, it2, st)]
+    out = []
+    for (v, st2) in opt_cases(interp, item, st, "flat@%s#%d" % (site, depth)):
+        if v.variant == 1:
+            out.append((v.fields[0], it2, st2))
+        else:
+            out.extend(_flatten_next(interp, it2, st2, site, depth + 1))
+    return out
+
+
 def _it_next(it):
     """(item or None, new iterator) for a concrete iterator value; raises ValueError when not concrete"""
     nm = it.name
@@ -443,6 +571,11 @@ def _it_next(it):
         if i.v >= n.v:
             return None, it
         return Ref(r.addr, r.path + ("[%d]" % i.v,), r.mut), Adt(nm, 0, (r, Const(i.v + 1, "usize"), n))
+    if nm == "it:array":
+        arr, i = f
+        if i.v >= len(arr.fields):
+            return None, it
+        return arr.fields[i.v], Adt(nm, 0, (arr, Const(i.v + 1, "usize")))
     if nm == "it:range":
         a, b = f
         if not (isinstance(a, Const) and isinstance(b, Const)):
@@ -498,6 +631,17 @@ def m_iter_next(interp, fn, args, st, site, frame):
         return [(some(a_), st2)]
     if not (isinstance(it, Adt) and it.name.startswith("it:")):
         return None
+    if it.name == "it:flatten":
+        try:
+            outs = _flatten_next(interp, it, st, site)
+        except ValueError:
+            return None
+        res = []
+        for (item, it2, st1) in outs:
+            st2 = st1.fork()
+            st2.heap[a.addr] = interp.set_at(st2.heap.get(a.addr, base), a.path, it2)
+            res.append((NONE if item is None else some(item), st2))
+        return res
     try:
         item, it2 = _it_next(it)
     except ValueError:
@@ -596,6 +740,11 @@ BASE_MODELS = [
     (r"^std::option::Option::<.*>::ok_or", m_opt_ok_or),
     (r"^std::option::Option::<.*>::is_some_and", m_opt_is_some_and),
     (r"^std::option::Option::<.*>::map_or_else", m_opt_map_or_else),
+    (r"^std::option::Option::<.*>::map_or::", m_opt_map_or),
+    (r"^std::option::Option::<.*>::unwrap_or_else", m_opt_unwrap_or_else),
+    (r"^std::option::Option::<.*>::unwrap_or$", m_opt_unwrap_or),
+    (r"^std::option::Option::<.*>::and_then", m_opt_and_then),
+    (r"^std::option::Option::<.*>::filter", m_opt_filter),
     (r"^std::option::Option::<.*>::map::", m_opt_map),
     (r"^std::bool::<impl bool>::then_some|^core::bool::<impl bool>::then_some|bool>::then_some", m_bool_then_some),
     (r"bool>::then::<|bool>::then$", m_bool_then),
@@ -609,6 +758,9 @@ BASE_MODELS = [
     (r"^std::option::Option::<.*>::(unwrap|expect)$|^std::result::Result::<.*>::(unwrap|expect)$", m_unwrap),
     (r"^<(u8|u16|u32|u64|usize) as std::convert::TryInto<(u8|u16|u32|u64|usize)>>::try_into$|TryFrom<(u8|u16|u32|u64|usize)> for (u8|u16|u32|u64|usize)>::try_from$", m_int_try_from),
     (r"^<I as std::iter::IntoIterator>::into_iter$", m_identity),
+    (r"^std::array::iter::<impl std::iter::IntoIterator for \[.*\]>::into_iter$", m_array_into_iter),
+    (r"as std::iter::Iterator>::flatten$|^std::iter::Iterator::flatten$", m_iter_flatten),
+    (r"as std::iter::IntoIterator>::into_iter$", m_into_iter_identity),
     (r"^core::slice::<impl \[.*\]>::(iter|iter_mut)$", m_slice_iter),
     (r"^std::iter::Iterator::enumerate$|as std::iter::Iterator>::enumerate$", m_iter_enumerate),
     (r"^std::iter::Iterator::take$|as std::iter::Iterator>::take$", m_iter_take),
